@@ -101,7 +101,7 @@ UNIVERSES = {
     "docs": ["A"], "ids": [],
     "elems": [["ruby", "Ruby", None], ["rb", "Rb", None], ["rb2", "Rb", None], ["rt", "Rt", None], ["rt2", "Rt", None],
               ["rp1", "Rp", None], ["rp2", "Rp", None], ["rbc", "Rbc", None], ["rbc2", "Rbc", None], ["rtc1", "Rtc", None],
-              ["rtc2", "Rtc", None], ["span1", "Span", None], ["rtA", "Rt", "A"]],
+              ["rtc2", "Rtc", None], ["span1", "Span", None], ["rtA", "Rt", "A"], ["rpA", "Rp", "A"]],
     "presets": {
       "empty": [],
       "rtc-rt": [["push_child", "rtc1", "rt"]],
@@ -197,6 +197,8 @@ RTC_LISTS = [
   ["rt"], ["rt", "rt2"], ["rp1", "rt", "rp2"], ["rp1", "rt", "rt2", "rp2"], ["rp1", "rp2"], ["rp1"], ["rp1", "rt"],
   ["rt", "rp1"], ["rt", "rp1", "rt2"], ["rb"], ["rp1", "rb", "rp2"], [], ["rt", "rt"], ["rp1", "rtA", "rp2"], ["rt", "rtA"],
   ["rt2"], ["rp1", "rt2", "rp2"], "NONE",
+  # delimited form whose closing delimiter is unusable: the same object as the opening one, or an Rp of another document
+  ["rp1", "rt", "rp1"], ["rp1", "rt", "rt2", "rp1"], ["rp1", "rt", "rpA"], ["rpA", "rt", "rp1"],
 ]
 
 
